@@ -280,12 +280,12 @@ class BasicContiguousElement
                 {
                     return std::move(other.reference_);
                 }
-                return store_and_load(other.reference_, other.memory_.size());
+                return store_and_load(other.reference_, other.reference_.size_in_bytes());
             }
         }
         else
         {
-            return store_and_load(other.reference_, other.memory_.size());
+            return store_and_load(other.reference_, other.reference_.size_in_bytes());
         }
     }
 
@@ -313,7 +313,7 @@ class BasicContiguousElement
             {
                 destruct();
                 memory_ = other.memory_;
-                store_and_construct_reference_inplace(other.reference_, other.memory_.size());
+                store_and_construct_reference_inplace(other.reference_, other.reference_.size_in_bytes());
             }
         }
     }
@@ -350,7 +350,7 @@ class BasicContiguousElement
                 else
                 {
                     const auto other_size_in_bytes = other.reference_.size_in_bytes();
-                    if (other_size_in_bytes > memory_.size())
+                    if (other_size_in_bytes > memory_.size() * sizeof(StorageElementType))
                     {
                         // allocate memory first because it might throw
                         StorageType new_memory{other.memory_.size(), get_allocator()};
